@@ -341,8 +341,13 @@ class DeterministicFiniteAutomaton(NondeterministicFiniteAutomaton):
             return res
         # Create a state for this
         to_new_states = {}
+        new_states = set()
         for group in groups:
             new_state = to_single_state(group)
+            # Two different groups must not get the same name
+            while new_state in new_states:
+                new_state = State(str(new_state.value) + "'")
+            new_states.add(new_state)
             for state in group:
                 to_new_states[state] = new_state
         # Build the DFA
